@@ -28,7 +28,7 @@ CORE_KINDS = [
     "stored-field", "stored-field-self", "cond-alias", "recursion", "mutual-recursion", "recursive-method",
 ]
 EXT_KINDS = [
-    "super-init", "super-method", "explicit-base-init", "closure-captured", "default-param", "staticmethod",
+    "self-dispatch-subclass", "diamond-init", "super-init", "super-method", "explicit-base-init", "closure-captured", "default-param", "staticmethod",
     "classmethod", "lambda", "class-attr-method", "diamond-method",
 ]
 ALL_KINDS = CORE_KINDS + EXT_KINDS
@@ -141,6 +141,7 @@ class Gen:
         self.mods = []
         self.ents = []
         self.stepped = {}        # "kind/via" -> count
+        self.self_calls = []     # {"line": Line, "cls": lexical class, "name": method name}
         self.size = size
 
     # -- bookkeeping ------------------------------------------------------------------------
@@ -498,6 +499,10 @@ class Gen:
             if pairs:
                 a, b = self.ch.pick(pairs)
                 bases = [a, b]
+        if len(bases) == 2 and (self.avoided("diamond-init") if self.diamond_init_would_differ(bases) else False):
+            bases = bases[:1]
+        if len(bases) == 2 and self.self_dispatch_changes(bases, []) and self.avoided("self-dispatch-subclass"):
+            bases = bases[:1]
         for b in bases:
             expr, via = self.ref(tmp, b)
             base_exprs.append(expr)
@@ -561,6 +566,9 @@ class Gen:
             if n not in names:
                 names.append(n)
         names.sort()
+        if bases and names and self.self_dispatch_changes(bases, names) and self.avoided("self-dispatch-subclass"):
+            blocked = self.self_called_names(bases)
+            names = [n for n in names if n not in blocked]
         init_kind = self.init_info(e)[1]
         for n in names:
             flav = "plain"
@@ -573,7 +581,7 @@ class Gen:
                 # keep the flavour of the overridden method
                 d = [self.find_method(b, n) for b in bases if self.find_method(b, n)][0][0]
                 flav = d.methods[n]["flavour"]
-            e.methods[n] = {"flavour": flav}
+            e.methods[n] = {"flavour": flav, "line": None}
             if flav == "static":
                 out.append(Line("    @staticmethod"))
                 out.append(Line("    def %s(x):" % n))
@@ -587,6 +595,7 @@ class Gen:
                 n_members += 1
                 continue
             out.append(Line("    def %s(self, x):" % n))
+            e.methods[n]["line"] = out[-1]
             sc = Scope(self, mod, e.idx, 2, out, "x", self_cls=e, method_name=n)
             k = self.ch.pick([0, 1, 1, 1, 2])
             for _ in range(k):
@@ -631,6 +640,7 @@ class Gen:
                 if not self.avoided(kind, via):
                     v = sc.mod.fresh("r")
                     sc.emit("%s = self.%s(%s)" % (v, n, self.arg(sc)), kind, via)
+                    self.self_calls.append({"line": sc.out[-1], "cls": cls, "name": n})
                     sc.last = v
                     return
         if r < 8 and self.init_info(cls)[1] == "cb" and not self.avoided("stored-field-self"):
@@ -649,6 +659,8 @@ class Gen:
             sc.emit("%s = %s()" % (o, expr))      # no Python-level call happens
             return o
         k = "constructor" if definer is cls else "constructor-inherited-init"
+        if self.diamond_differs(cls, "__init__"):
+            k = "diamond-init"
         via2 = self.class_via(cls, via) if definer is not cls else via
         if kind == "cb":
             if cbref is None:
@@ -695,15 +707,59 @@ class Gen:
 
     def diamond_differs(self, cls, name):
         """True when a depth-first, left-to-right lookup finds another definer than the C3 MRO"""
+        def has(c):
+            return c.init is not None if name == "__init__" else name in c.methods
+
         def dfs(c):
-            if name in c.methods:
+            if has(c):
                 return c
             for b in c.bases:
                 r = dfs(b)
                 if r is not None:
                     return r
             return None
-        return dfs(cls) is not self.find_method(cls, name)[0]
+        mro_def = [c for c in self.mro(cls) if has(c)]
+        return bool(mro_def) and dfs(cls) is not mro_def[0]
+
+    def diamond_init_would_differ(self, bases):
+        class Tmp:
+            pass
+        t = Tmp()
+        t.bases = list(bases)
+        t.methods = {}
+        t.init = None
+        try:
+            return self.diamond_differs(t, "__init__")
+        except ValueError:
+            return True
+
+    def self_called_names(self, classes):
+        """names that methods of the given classes (or of their bases) call through self"""
+        involved = set()
+        for c in classes:
+            involved.update(id(k) for k in self.mro(c))
+        return {r["name"] for r in self.self_calls if id(r["cls"]) in involved}
+
+    def self_dispatch_changes(self, new_bases, new_names):
+        """would a class with these bases / own method names redirect an existing self-call?"""
+        class Tmp:
+            pass
+        t = Tmp()
+        t.bases = list(new_bases)
+        t.methods = {n: {} for n in new_names}
+        t.init = None
+        try:
+            mro = self.mro(t)
+        except ValueError:
+            return True
+        for r in self.self_calls:
+            if not any(r["cls"] is c for c in mro):
+                continue
+            lexical = self.find_method(r["cls"], r["name"])
+            runtime = [c for c in mro if r["name"] in c.methods]
+            if lexical is None or not runtime or runtime[0] is not lexical[0]:
+                return True
+        return False
 
     def stmt(self, sc):
         """emit one call scenario (1-4 lines) in scope sc"""
@@ -1049,6 +1105,7 @@ class Gen:
     def render(self):
         files = {}
         kinds = {}
+        pos = {}
         for mod in self.mods:
             lines = []
             for t in mod.import_lines:
@@ -1062,6 +1119,26 @@ class Gen:
                 if ln.kind is not None:
                     kinds["%s:%d" % (mod.file, i + 1)] = [ln.kind, ln.via or "local"]
             files[mod.file] = "\n".join(text) + "\n"
+            for i, ln in enumerate(lines):
+                pos[id(ln)] = (mod.file, i + 1)
+        # a self-call is labelled by its lexical class; the edges it has to overriding methods of subclasses get an
+        # edge-specific label "file:line>calleefile:calleeline"
+        classes = [e for e in self.ents if e.typ == "class"]
+        for r in self.self_calls:
+            lexical = self.find_method(r["cls"], r["name"])
+            if id(r["line"]) not in pos:
+                continue
+            for s_cls in classes:
+                if s_cls is r["cls"] or not any(c is r["cls"] for c in self.mro(s_cls)):
+                    continue
+                runtime = self.find_method(s_cls, r["name"])
+                if runtime is None or (lexical is not None and runtime[0] is lexical[0]):
+                    continue
+                dl = runtime[0].methods[r["name"]].get("line")
+                if dl is None or id(dl) not in pos:
+                    continue
+                key = "%s:%d>%s:%d" % (pos[id(r["line"])] + pos[id(dl)])
+                kinds[key] = ["self-dispatch-subclass", r["line"].via or "local"]
         return {"files": files, "main": "main.py", "kinds": kinds, "stepped": dict(self.stepped)}
 
 
